@@ -276,6 +276,84 @@ theorem treeOf_append_of_lt (w : World V) (x : SysRec) {s : Nat} (hs : s < w.sys
   simp only
   rw [List.getElem?_append_left hs]
 
+/-! ## A copy of one's own -/
+
+theorem ownCopy_systems_length (w : World V) (s i : Nat) : (ownCopy w s i).1.systems.length = w.systems.length := by
+  unfold ownCopy
+  cases w.heap[i]? with
+  | none => rfl
+  | some t => simp
+
+theorem ownCopy_memo (w : World V) (s i : Nat) : (ownCopy w s i).1.memo = w.memo := by
+  unfold ownCopy
+  cases w.heap[i]? <;> rfl
+
+theorem ownCopy_refsOK (w : World V) (hr : RefsOK w) (s i : Nat) (hi : i < w.heap.length) :
+    RefsOK (ownCopy w s i).1 ∧ (ownCopy w s i).2 < (ownCopy w s i).1.heap.length := by
+  unfold ownCopy
+  rw [List.getElem?_eq_getElem hi]
+  simp only [List.length_append, List.length_cons, List.length_nil]
+  refine ⟨?_, by omega⟩
+  intro r hr' k hk
+  simp only [List.length_append, List.length_cons, List.length_nil]
+  obtain ⟨j, hj, hrj⟩ := List.getElem_of_mem hr'
+  rw [List.getElem_modify] at hrj
+  by_cases hjs : s = j
+  · rw [if_pos hjs] at hrj
+    rw [← hrj] at hk
+    simp only [Option.some.injEq] at hk
+    omega
+  · rw [if_neg hjs] at hrj
+    have : k < w.heap.length := hr _ (List.getElem_mem _) k (by rw [hrj]; exact hk)
+    omega
+
+/-- the copy changes nobody else's tree, and not the value of one's own -/
+theorem ownCopy_treeOf (w : World V) (hr : RefsOK w) (s i : Nat) (s' : Nat) (hs : s' ≠ s) :
+    (ownCopy w s i).1.treeOf s' = w.treeOf s' := by
+  unfold ownCopy
+  cases hh : w.heap[i]? with
+  | none => rfl
+  | some t =>
+    unfold World.treeOf
+    simp only
+    rw [List.getElem?_modify_ne _ _ (fun c => hs c.symm)]
+    cases hs' : w.systems[s']? with
+    | none => rfl
+    | some r =>
+      simp only
+      cases hk : r.tree with
+      | none => rfl
+      | some k =>
+        simp only
+        have : k < w.heap.length := hr r (List.mem_of_getElem? hs') k hk
+        rw [List.getElem?_append_left this]
+
+/-- what the copy leaves of the other systems' references: they stay below the old number of objects -/
+theorem ownCopy_ref_lt (w : World V) (hr : RefsOK w) (s i : Nat) (hi : i < w.heap.length) (s' : Nat) (hs : s' ≠ s)
+    (r' : SysRec) (hr' : (ownCopy w s i).1.systems[s']? = some r') (k : Nat) (hk : r'.tree = some k) :
+    k < (ownCopy w s i).2 ∧ w.systems[s']? = some r' := by
+  unfold ownCopy at hr' ⊢
+  rw [List.getElem?_eq_getElem hi] at hr' ⊢
+  simp only at hr' ⊢
+  rw [List.getElem?_modify_ne _ _ (fun c => hs c.symm)] at hr'
+  exact ⟨hr r' (List.mem_of_getElem? hr') k hk, hr'⟩
+
+theorem treeOf_set_ne (w : World V) (j : Nat) (t : PNode V) (m) (s' : Nat)
+    (h : ∀ r, w.systems[s']? = some r → r.tree ≠ some j) :
+    ({ w with heap := w.heap.set j t, memo := m } : World V).treeOf s' = w.treeOf s' := by
+  unfold World.treeOf
+  simp only
+  cases hs' : w.systems[s']? with
+  | none => rfl
+  | some r =>
+    simp only
+    cases hk : r.tree with
+    | none => rfl
+    | some k =>
+      simp only
+      have : j ≠ k := fun c => h r hs' (by rw [hk, c])
+      rw [List.getElem?_set_ne this]
+
 /-! ## Every operation keeps the state sound -/
 
 theorem step_memoOK (w : World V) (hw : MemoOK w) (op : Op V) : MemoOK (step w op).1 := by
@@ -349,17 +427,29 @@ theorem step_memoOK (w : World V) (hw : MemoOK w) (op : Op V) : MemoOK (step w o
       | none => exact memoOK_of_nil hw.1 rfl
       | some i =>
         simp only
-        cases hh : w.heap[i]? with
-        | none => exact memoOK_of_nil hw.1 rfl
-        | some t =>
-          cases t with
-          | param l => exact memoOK_of_nil hw.1 rfl
-          | scale m bs => exact memoOK_of_nil hw.1 rfl
-          | node cs =>
-            refine memoOK_of_nil ?_ rfl
-            intro r' hr' j hj
-            simp only [List.length_set]
-            exact hw.1 r' hr' j hj
+        have hil : i < w.heap.length := hw.1 r (List.mem_of_getElem? hr) i hi
+        have hw1 : ∀ w1 j, (if sharesWithBaseline w r = true then ownCopy w s i else (w, i)) = (w1, j) → RefsOK w1 := by
+          intro w1 j h
+          by_cases hsh : sharesWithBaseline w r = true
+          · rw [if_pos hsh] at h
+            have := (ownCopy_refsOK w hw.1 s i hil).1
+            rw [h] at this; exact this
+          · rw [if_neg hsh] at h; cases h; exact hw.1
+        cases hc : (if sharesWithBaseline w r = true then ownCopy w s i else (w, i)) with
+        | mk w1 j =>
+          have hr1 := hw1 w1 j hc
+          simp only
+          cases hh : w1.heap[j]? with
+          | none => exact memoOK_of_nil hr1 rfl
+          | some t =>
+            cases t with
+            | param l => exact memoOK_of_nil hr1 rfl
+            | scale m bs => exact memoOK_of_nil hr1 rfl
+            | node cs =>
+              refine memoOK_of_nil ?_ rfl
+              intro r' hr' k hk
+              simp only [List.length_set]
+              exact hr1 r' hr' k hk
 
 theorem run_memoOK (w : World V) (hw : MemoOK w) (ops : List (Op V)) : MemoOK (run w ops) := by
   induction ops generalizing w with
@@ -436,18 +526,29 @@ theorem step_length_le (w : World V) (op : Op V) : w.systems.length ≤ (step w 
       | none => exact Nat.le_refl _
       | some i =>
         simp only
-        cases hh : w.heap[i]? with
-        | none => exact Nat.le_refl _
-        | some t =>
-          cases t with
-          | param l => exact Nat.le_refl _
-          | scale m bs => exact Nat.le_refl _
-          | node cs => exact Nat.le_refl _
+        have hlen : ∀ w1 j, (if sharesWithBaseline w r = true then ownCopy w s i else (w, i)) = (w1, j) →
+            w1.systems.length = w.systems.length := by
+          intro w1 j h
+          by_cases hsh : sharesWithBaseline w r = true
+          · rw [if_pos hsh] at h
+            have := ownCopy_systems_length w s i
+            rw [h] at this; exact this
+          · rw [if_neg hsh] at h; cases h; rfl
+        cases hc : (if sharesWithBaseline w r = true then ownCopy w s i else (w, i)) with
+        | mk w1 j =>
+          have hl := hlen w1 j hc
+          simp only
+          cases hh : w1.heap[j]? with
+          | none => simp only [hl]; exact Nat.le_refl _
+          | some t =>
+            cases t with
+            | param l => simp only [hl]; exact Nat.le_refl _
+            | scale m bs => simp only [hl]; exact Nat.le_refl _
+            | node cs => simp only [hl]; exact Nat.le_refl _
 
-/-- an operation that neither replaces the tree of `s'` nor changes a tree object in place leaves the
-    tree of `s'` alone -/
+/-- an operation that spares `s'` (`Op.spares`) leaves the tree of `s'` alone -/
 theorem step_treeOf_other (w : World V) (hw : RefsOK w) (op : Op V) (s' : Nat) (hs' : s' < w.systems.length)
-    (ht : op.target ≠ some s') (hip : op.inPlace = false) : (step w op).1.treeOf s' = w.treeOf s' := by
+    (hsp : op.spares w s' = true) : (step w op).1.treeOf s' = w.treeOf s' := by
   cases op with
   | readView s form d path => exact treeOf_congr (doRead_frame w _).1 (doRead_frame w _).2 s'
   | readTree s path d => exact treeOf_congr (doRead_frame w _).1 (doRead_frame w _).2 s'
@@ -459,7 +560,7 @@ theorem step_treeOf_other (w : World V) (hw : RefsOK w) (op : Op V) (s' : Nat) (
     | none => rfl
     | some r => exact treeOf_append_of_lt w _ hs'
   | modify s f =>
-    have hne : s' ≠ s := fun c => ht (by rw [c]; rfl)
+    have hne : s' ≠ s := fun c => by rw [c] at hsp; simp [Op.spares] at hsp
     simp only [step]
     cases hr : w.systems[s]? with
     | none => rfl
@@ -487,7 +588,7 @@ theorem step_treeOf_other (w : World V) (hw : RefsOK w) (op : Op V) (s' : Nat) (
                 exact treeOf_congr hp.1 hp.2 s'
               · rw [if_neg hn]; exact treeOf_congr hp.1 hp.2 s'
   | reload s cs hook =>
-    have hne : s' ≠ s := fun c => ht (by rw [c]; rfl)
+    have hne : s' ≠ s := fun c => by rw [c] at hsp; simp [Op.spares] at hsp
     simp only [step]
     cases hr : w.systems[s]? with
     | none => rfl
@@ -504,19 +605,85 @@ theorem step_treeOf_other (w : World V) (hw : RefsOK w) (op : Op V) (s' : Nat) (
           simp only
           rw [treeOf_install_ne w1 (refsOK_congr hp.1 hp.2 hw) s s' t' hne]
           exact treeOf_congr hp.1 hp.2 s'
-  | extend s ext => simp [Op.inPlace] at hip
+  | extend s ext =>
+    simp only [Op.spares, Bool.and_eq_true, bne_iff_ne, ne_eq] at hsp
+    obtain ⟨hne0, hcond⟩ := hsp
+    have hne : s' ≠ s := fun c => hne0 c.symm
+    simp only [step]
+    cases hr : w.systems[s]? with
+    | none => rfl
+    | some r =>
+      simp only
+      cases hi : r.tree with
+      | none => rfl
+      | some i =>
+        simp only
+        have hil : i < w.heap.length := hw r (List.mem_of_getElem? hr) i hi
+        rw [hr, List.getElem?_eq_getElem hs'] at hcond
+        simp only [Bool.or_eq_true, bne_iff_ne, ne_eq] at hcond
+        -- after the (possible) copy: the object merged into is not the one `s'` refers to
+        have key : ∀ w1 j, (if sharesWithBaseline w r = true then ownCopy w s i else (w, i)) = (w1, j) →
+            w1.treeOf s' = w.treeOf s' ∧ ∀ r', w1.systems[s']? = some r' → r'.tree ≠ some j := by
+          intro w1 j h
+          by_cases hsh : sharesWithBaseline w r = true
+          · rw [if_pos hsh] at h
+            have h1 := ownCopy_treeOf w hw s i s' hne
+            rw [h] at h1
+            refine ⟨h1, ?_⟩
+            intro r' hr' hk
+            have := (ownCopy_ref_lt w hw s i hil s' hne r' (by rw [h]; exact hr') j hk).1
+            rw [h] at this
+            exact Nat.lt_irrefl _ this
+          · rw [if_neg hsh] at h
+            cases h
+            refine ⟨rfl, ?_⟩
+            intro r' hr' hk
+            rw [List.getElem?_eq_getElem hs'] at hr'
+            cases hr'
+            rcases hcond with hc | hc
+            · exact hsh hc
+            · exact hc (by rw [hi, hk])
+        cases hc : (if sharesWithBaseline w r = true then ownCopy w s i else (w, i)) with
+        | mk w1 j =>
+          obtain ⟨k1, k2⟩ := key w1 j hc
+          simp only
+          cases hh : w1.heap[j]? with
+          | none => exact k1
+          | some t =>
+            cases t with
+            | param l => exact k1
+            | scale m bs => exact k1
+            | node cs => rw [treeOf_set_ne w1 j _ [] s' k2]; exact k1
 
 theorem run_treeOf_other (w : World V) (hw : MemoOK w) (ops : List (Op V)) (s' : Nat) (hs' : s' < w.systems.length)
-    (ht : ∀ op ∈ ops, op.target ≠ some s' ∧ op.inPlace = false) :
+    (ht : Spared s' w ops) :
     (run w ops).treeOf s' = w.treeOf s' ∧ s' < (run w ops).systems.length := by
   induction ops generalizing w with
   | nil => exact ⟨rfl, hs'⟩
   | cons op ops ih =>
-    obtain ⟨ht1, ht2⟩ := ht op (List.mem_cons_self ..)
-    have h1 := step_treeOf_other w hw.1 op s' hs' ht1 ht2
+    obtain ⟨ht1, ht2⟩ := ht
+    have h1 := step_treeOf_other w hw.1 op s' hs' ht1
     have h2 : s' < (step w op).1.systems.length := Nat.lt_of_lt_of_le hs' (step_length_le w op)
-    obtain ⟨h3, h4⟩ := ih (step w op).1 (step_memoOK w hw op) h2 (fun o ho => ht o (List.mem_cons_of_mem _ ho))
+    obtain ⟨h3, h4⟩ := ih (step w op).1 (step_memoOK w hw op) h2 ht2
     exact ⟨by show (run (step w op).1 ops).treeOf s' = _; rw [h3, h1], h4⟩
+
+/-- the static sufficient condition: no operation replaces the tree of `s'` nor changes an object in place -/
+theorem spared_of_static (w : World V) (ops : List (Op V)) (s' : Nat)
+    (ht : ∀ op ∈ ops, op.target ≠ some s' ∧ op.inPlace = false) : Spared s' w ops := by
+  induction ops generalizing w with
+  | nil => trivial
+  | cons op ops ih =>
+    refine ⟨?_, ih _ (fun o ho => ht o (List.mem_cons_of_mem _ ho))⟩
+    obtain ⟨h1, h2⟩ := ht op (List.mem_cons_self ..)
+    cases op with
+    | readView s form d path => rfl
+    | readTree s path d => rfl
+    | readFormula s traced form d path => rfl
+    | read rd => rfl
+    | newReform b => rfl
+    | modify s f => simp only [Op.spares, bne_iff_ne, ne_eq]; intro c; exact h1 (by rw [c]; rfl)
+    | reload s cs hook => simp only [Op.spares, bne_iff_ne, ne_eq]; intro c; exact h1 (by rw [c]; rfl)
+    | extend s ext => simp [Op.inPlace] at h2
 
 /-! ## Attribute paths commute with evaluation at an instant -/
 
